@@ -49,11 +49,19 @@ func PackageMetaWithGitMetadata(
 //
 // If there is no relevant commit ID for this package, returns an empty string.
 func (m *PackageMeta) GitCommitID() string {
+	if m == nil {
+		// A nil value represents no metadata, and is what
+		// Bundle.RemotePackageMeta returns for such a package.
+		return ""
+	}
 	return m.gitCommitID
 }
 
 // GitCommitMessage returns a commit message for the commit this package was
 // derived from.
 func (m *PackageMeta) GitCommitMessage() string {
+	if m == nil {
+		return ""
+	}
 	return m.gitCommitMessage
 }
